@@ -268,7 +268,7 @@ func c19Valid(c *fw.Ctx, i int) {
 			_, _ = d.Unmarshal(ref.EncodeVLA(other))
 		}
 		var nn int
-		in := append([]byte{}, want...)
+		in := fw.Exact(want)
 		if pv, st := fw.Guard(func() { nn, err = d.Unmarshal(in) }); pv != nil {
 			c.Fail("C19/unmarshal/"+vname+"/panic/"+fw.PanicFunc(st), fmt.Sprintf("VLA.Unmarshal panicked on a valid encoding: %v", pv), wit("stack", st))
 			return
@@ -383,8 +383,8 @@ func c19Fuzz(c *fw.Ctx, i int) {
 		var fn int
 		var ferr error
 		if pv, st := fw.Guard(func() {
-			fn, ferr = fresh.Unmarshal(append([]byte(nil), in...))
-			nn, err = d.Unmarshal(append([]byte(nil), in...))
+			fn, ferr = fresh.Unmarshal(fw.Exact(in))
+			nn, err = d.Unmarshal(fw.Exact(in))
 		}); pv != nil {
 			c.Fail("C19/fuzz/panic/"+fw.PanicFunc(st), fmt.Sprintf("VLA.Unmarshal panicked: %v", pv), fw.W("input", fw.Hex(in), "stack", st))
 			return
